@@ -22,10 +22,10 @@ META = {
             "mapping/pairs, clear, views, ==, iteration order by offset, "
             "whole-mapping assignment). Non-trivial = every history; "
             "distinct = hash of the operation list.",
-    "reach": {"world_checks": 3000, "c16:set_query_comparisons": 3000,
+    "reach": {"world_checks": 3000, "c16:set_query_comparisons": 1200,
               "c16:list_ops:plain": 2000,
-              "c16:list_ops:value-already-in-same-list": 200,
-              "c16:list_ops:value-owned-by-other-ir": 200,
+              "c16:list_ops:value-already-in-same-list": 80,
+              "c16:list_ops:value-owned-by-other-ir": 80,
               "c16:list_ops_raising": 200, "map:ops": 5000,
               "#op_kinds": 100},
     "assumptions": [
